@@ -340,6 +340,10 @@ impl<P: ConnectionProvider> PoolState<P> {
         let mut busy = SmallVec::<[Arc<NameServer<P>>; 2]>::new();
         let mut err = NetError::NoConnections;
         let mut policy = ConnectionPolicy::default();
+        // Servers that have already been asked again because of a truncated response. A response
+        // that is still truncated after that (the retry goes over TCP) is all this server has to
+        // say; asking it again would repeat the same exchange until the deadline.
+        let mut retried_truncated = SmallVec::<[IpAddr; 2]>::new();
 
         loop {
             // Check the deadline before starting a new round of server attempts.
@@ -416,9 +420,12 @@ impl<P: ConnectionProvider> PoolState<P> {
             {
                 completed.push(server.ip());
                 let e = match result {
-                    Ok(response) if response.truncation => {
+                    Ok(response)
+                        if response.truncation && !retried_truncated.contains(&server.ip()) =>
+                    {
                         debug!("truncated response received, retrying over TCP");
                         policy.disable_udp = true;
+                        retried_truncated.push(server.ip());
                         err = NetError::from("received truncated response");
                         servers.push_front(server);
                         continue;
